@@ -502,11 +502,12 @@ func c13ManagerFromUpdatedConfig(c *Ctx) {
 //
 // "When no context's names match, the first context - in configuration order - whose ALPN list shares a protocol with
 // the client's list is used." Two structural necessary conditions:
-//   alpn-whole-list      every MatchedALPN test is given the client's whole protocol list (ClientHelloInfo.SupportedProtos,
-//                        possibly handed down through a parameter): testing one protocol at a time makes the *client's*
-//                        preference order decide, not the configuration order;
-//   alpn-context-order   the tested provider is the element of serverContextManager.providers of the one loop around the
-//                        test; the test sits in exactly one loop (a second, outer loop re-orders the candidates).
+//
+//	alpn-whole-list      every MatchedALPN test is given the client's whole protocol list (ClientHelloInfo.SupportedProtos,
+//	                     possibly handed down through a parameter): testing one protocol at a time makes the *client's*
+//	                     preference order decide, not the configuration order;
+//	alpn-context-order   the tested provider is the element of serverContextManager.providers of the one loop around the
+//	                     test; the test sits in exactly one loop (a second, outer loop re-orders the candidates).
 type alpnSite struct {
 	fn   *ssa.Function
 	call ssa.CallInstruction
